@@ -1412,8 +1412,9 @@ func parsePublicKey(algo PublicKeyAlgorithm, keyData *publicKeyInfo) (interface{
 		return pub, nil
 	case Ed25519:
 		p := ed25519.PublicKey(asn1Data)
-		if len(p) > ed25519.PublicKeySize {
-			return nil, errors.New("x509: trailing data after Ed25519 data")
+		if len(p) != ed25519.PublicKeySize {
+			// a shorter key makes ed25519.Verify panic
+			return nil, errors.New("x509: wrong Ed25519 public key size")
 		}
 		return p, nil
 	case X25519:
